@@ -23,6 +23,7 @@ AllSkips3 == SUBSET S3
 SmallSkips3 == {{}, {2}, {1}}
 AllSkips4 == SUBSET S4
 SmallSkips4 == {{}} \cup {{s} : s \in S4}
+TinySkips4 == {{}, {2}}
 D14 == 1..4
 D13 == 1..3
 D12 == 1..2
@@ -48,9 +49,9 @@ Skips5 == {{}, {2}, {5}, {1}, {2, 4}}
 \* every finished behaviour is exported (always TRUE, used as an INVARIANT with -workers 1)
 SimGraphs4 == {Back(S4) \cup X : X \in RandomSetOfSubsets(7, 3, Free(S4))}
                 \cup {Back(S4) \cup X : X \in RandomSetOfSubsets(7, 6, Free(S4))}
-SimGraphs4T == {Back(S4) \cup X : X \in RandomSetOfSubsets(60, 3, Free(S4))}
-                \cup {Back(S4) \cup X : X \in RandomSetOfSubsets(60, 6, Free(S4))}
-                \cup {Back(S4) \cup X : X \in RandomSetOfSubsets(30, 9, Free(S4))}
+SimGraphs4T == {Back(S4) \cup X : X \in RandomSetOfSubsets(30, 3, Free(S4))}
+                \cup {Back(S4) \cup X : X \in RandomSetOfSubsets(30, 6, Free(S4))}
+                \cup {Back(S4) \cup X : X \in RandomSetOfSubsets(15, 9, Free(S4))}
 SimSkips4 == {{}, {1}, {3}, {2, 4}}
 Export == pc \in {"Done", "Abort"} =>
             PrintT(<<"B", [E |-> E, depth |-> depth, skip |-> skip, thorough |-> thorough, pc |-> pc,
